@@ -5,6 +5,7 @@ import (
 	"encoding/json"
 	"fmt"
 	"reflect"
+	"strings"
 
 	"github.com/mfcochauxlaberge/jsonapi"
 
@@ -183,25 +184,25 @@ func (c *c05) checkDoc(entry, faults string, doc *jsonapi.Document, err error, d
 		c.st.Inc("probe:delivery-rejected")
 
 		if doc != nil {
-			return viol(p05, "error-xor-result", entry, "doc", "%s returned both an error (%v) and a document\n    delivered: %q", entry, err, delivered)
+			return viol(p05, "error-xor-result", entry, "doc", "%s returned both an error (%v) and a document\n    delivered: %q", entry, err, clipBytes(delivered))
 		}
 
 		return nil
 	}
 
 	if doc == nil {
-		return viol(p05, "error-xor-result", entry, "doc", "%s returned neither an error nor a document\n    delivered: %q", entry, delivered)
+		return viol(p05, "error-xor-result", entry, "doc", "%s returned neither an error nor a document\n    delivered: %q", entry, clipBytes(delivered))
 	}
 
 	c.st.Inc("probe:delivery-accepted")
 
 	for _, r := range docResources(doc) {
 		if r == nil {
-			return viol(p05, "result-well-formed", entry, "nil-resource", "%s returned a document holding a nil resource\n    delivered: %q", entry, delivered)
+			return viol(p05, "result-well-formed", entry, "nil-resource", "%s returned a document holding a nil resource\n    delivered: %q", entry, clipBytes(delivered))
 		}
 
 		if v := c.conform(r, entry, false); v != nil {
-			v.Message += fmt.Sprintf("\n    faults: %s\n    delivered: %q", faults, delivered)
+			v.Message += fmt.Sprintf("\n    faults: %s\n    delivered: %q", faults, clipBytes(delivered))
 			return v
 		}
 	}
@@ -298,13 +299,63 @@ func runC05(t *core.Tape, st *core.Stats) *core.Violation {
 	nd := t.Range(1, t.Bound(6, 16))
 
 	for d := 0; d < nd; d++ {
+		// the schema is not a constant of the receiver: now and then a type is removed
+		// and another one added between two deliveries (same number of types), and the
+		// sender, unaware, keeps sending resources of the removed type
+		if d > 0 && len(c.spec.Types) > 1 && t.Bool(1, 5) {
+			k := t.Draw(len(c.spec.Types))
+			gone := c.spec.Types[k].Name
+			neu := &world.TypeSpec{Name: fmt.Sprintf("added%d", d), Attrs: []world.AttrSpec{{Name: "v", Kind: world.KString}}}
+
+			var aerr error
+
+			if p := core.Call(func() {
+				c.schema.RemoveType(gone)
+
+				var typ jsonapi.Type
+				if typ, aerr = neu.SoftType(); aerr == nil {
+					aerr = c.schema.AddType(typ)
+				}
+			}); p != nil || aerr != nil {
+				return nil // editing a schema is C14's business
+			}
+
+			types := append([]*world.TypeSpec{}, c.spec.Types[:k]...)
+			types = append(types, c.spec.Types[k+1:]...)
+			c.spec = &world.SchemaSpec{Types: append(types, neu)}
+
+			t.Logf("schema edited: type %q removed, type %q added", gone, neu.Name)
+			st.Inc("probe:schema-edited-between-deliveries")
+		}
+
 		// 1. the whole message through the transport
 		delivered, errAt, desc := c.fault(enabled, msg, other)
+
+		if t.Bool(1, 150) {
+			// F10: a very large body (>= 1 MiB): valid JSON padded with white space, a
+			// huge string, or a scalar followed by garbage
+			big := bytes.Repeat([]byte(" "), 1<<20)
+
+			switch t.Draw(4) {
+			case 0:
+				delivered, desc = append(append([]byte{}, msg...), big...), "F10-bloat: 1 MiB of trailing white space"
+			case 1:
+				delivered, desc = append(append([]byte(`"`), bytes.Repeat([]byte("x"), 1<<20)...), '"'), "F10-bloat: one string of 1 MiB"
+			case 2:
+				delivered, desc = append([]byte("7"), big...), "F10-bloat: a number followed by 1 MiB of white space"
+			default:
+				delivered, desc = append(append([]byte("null "), bytes.Repeat([]byte("[0,"), 350000)...), ']'), "F10-bloat: null followed by 1 MiB of array text"
+			}
+
+			errAt = -1
+			st.Inc("fault:F10-bloat")
+		}
+
 		if !bytes.Equal(delivered, msg) || errAt >= 0 {
 			changed = true
 		}
 
-		t.Logf("delivery %d: %s -> %q", d, desc, delivered)
+		t.Logf("delivery %d: %s -> %q", d, desc, clipBytes(delivered))
 		st.State(core.HashString(string(delivered)))
 
 		method := []string{"POST", "PATCH", "POST", "GET"}[t.Draw(4)]
@@ -315,7 +366,7 @@ func runC05(t *core.Tape, st *core.Stats) *core.Violation {
 
 		switch {
 		case p != nil:
-			if c.report(viol(p05, "no-panic", p.Func, p.Class, "NewRequest panicked: %s\n    faults: %s\n    delivered: %q", p.Value, desc, delivered)) {
+			if c.report(viol(p05, "no-panic", p.Func, p.Class, "NewRequest panicked: %s\n    faults: %s\n    delivered: %q", p.Value, desc, clipBytes(delivered))) {
 				return c.v
 			}
 		case body.ErrFired:
@@ -349,7 +400,7 @@ func runC05(t *core.Tape, st *core.Stats) *core.Violation {
 			st.Inc("op:UnmarshalDocument")
 
 			if p != nil {
-				if c.report(viol(p05, "no-panic", p.Func, p.Class, "UnmarshalDocument panicked: %s\n    faults: %s\n    delivered: %q", p.Value, desc, delivered)) {
+				if c.report(viol(p05, "no-panic", p.Func, p.Class, "UnmarshalDocument panicked: %s\n    faults: %s\n    delivered: %q", p.Value, desc, clipBytes(delivered))) {
 					return c.v
 				}
 			} else if v := c.checkDoc("UnmarshalDocument", desc, doc, err, delivered); v != nil && c.report(v) {
@@ -359,11 +410,15 @@ func runC05(t *core.Tape, st *core.Stats) *core.Violation {
 
 		// 2. the bare payload, separately faulted, to the other five entry points
 		pl, _, pdesc := c.fault(enabled, sub, subOther)
+		if strings.HasPrefix(desc, "F10-bloat") {
+			pl, pdesc = delivered, desc
+		}
+
 		if !bytes.Equal(pl, sub) {
 			changed = true
 		}
 
-		t.Logf("payload %d: %s -> %q", d, pdesc, pl)
+		t.Logf("payload %d: %s -> %q", d, pdesc, clipBytes(pl))
 
 		if v := c.payload(pl, pdesc); v != nil {
 			return v
@@ -538,7 +593,7 @@ func (c *c05) payload(pl []byte, desc string) *core.Violation {
 		}
 
 		if v != nil {
-			v.Message += fmt.Sprintf("\n    faults: %s\n    payload: %q", desc, pl)
+			v.Message += fmt.Sprintf("\n    faults: %s\n    payload: %q", desc, clipBytes(pl))
 
 			if c.report(v) {
 				return v
@@ -550,3 +605,11 @@ func (c *c05) payload(pl []byte, desc string) *core.Violation {
 }
 
 var _ = isNilish
+
+func clipBytes(b []byte) []byte {
+	if len(b) > 4000 {
+		return append(append([]byte{}, b[:2000]...), []byte(fmt.Sprintf(" …(%d bytes)… ", len(b)))...)
+	}
+
+	return b
+}
